@@ -35,7 +35,7 @@ RULE = (
     "distinct by construction"
 )
 BOUNDS = {
-    "quick": "6 lat x 6 lon x 4 alt = 144 stations; 8 az x 4 el x 3 ranges x 2 velocities = 192 targets; 3 dates; per target Range on 7 signal paths (1-4 legs: one-way, two-way, three-way to a second station, relayed open/closed) and Azimut/Elevation/Doppler on one of the 7 in turn; every 8th target also measured from the same state given as cartesian/spherical in ITRF, EME2000, the measuring station and a second station; 6 mask tables x ~60 queries; mask histories: all 30 ordered table pairs on two re-used stations (table re-assigned 3 times, 14 azimuths); re-registration histories: the station name defined at 2-3 of 4 sites in turn (24 sequences x reset/no reset), origin + 28 targets after each definition; 6 integer-valued sites x 10 argument types (tuple/list/ndarray, int/float/numpy-int/mixed)",
+    "quick": "6 lat x 6 lon x 4 alt = 144 stations; 8 az x 4 el x 3 ranges x 2 velocities = 192 targets; 3 dates; per target Range on 7 signal paths (1-4 legs: one-way, two-way, three-way to a second station, relayed open/closed) and Azimut/Elevation/Doppler on one of the 7 in turn; every 8th target also measured from the same state given as cartesian/spherical in ITRF, EME2000, the measuring station and a second station; 6 mask tables x ~60 queries; mask histories: all 30 ordered table pairs on two re-used stations (table re-assigned 3 times, 14 azimuths); re-registration histories: the station name defined at 2-3 of 4 sites in turn (24 sequences x reset/no reset), origin + 28 targets after each definition; stations on parent frames PEF and TIRF with real IERS polar motion (4 sites x 3 dates x 28 targets, own worker group); 6 integer-valued sites x 10 argument types (tuple/list/ndarray, int/float/numpy-int/mixed)",
     "thorough": "10 lat x 8 lon x 4 alt = 320 stations; 12 az x 6 el x 4 ranges x 3 velocities = 864 targets; 3 dates; same masks, 2 stations",
 }
 ASSUMPTIONS = [
@@ -66,17 +66,23 @@ DATES = [(1980, 2, 10, 0, 0, 30), (2004, 4, 6, 7, 51, 28), (2016, 6, 15, 12, 0, 
 EPS = 2.220446049250313e-16
 
 _G = {}
+POLE = "/repo/tests/data/pole"  # IERS tables (data)
 
 
 def setup(config):
     import logging
     from beyond.config import config as bc
 
-    bc.update({"eop": {"missing_policy": "pass"}})
+    kind = (config or {}).get("eop", "pass")
+    if kind == "real":  # stations on a non-default parent frame need real polar motion to mean anything
+        bc.update({"eop": {"missing_policy": "error", "folder": POLE, "type": "all"}})
+    else:
+        bc.update({"eop": {"missing_policy": "pass"}})
     lg = logging.getLogger("beyond")
     lg.handlers[:] = [logging.NullHandler()]
     lg.propagate = False
     _G.clear()
+    _G["kind"] = kind
 
 
 def _world():
@@ -132,7 +138,26 @@ def coords_arg(argtype, lat_d, lon_d, alt):
     }[argtype]()
 
 
-def make_station(name, lat_d, lon_d, alt, mask=None, argtype="tuple-float"):
+def parent_matrix(parent, dt):
+    """Reference 3x3 matrix ITRF -> parent (PEF or TIRF) at the UTC date dt, from the IERS record of that day."""
+    import os
+    from mc.ref import earthrot as er
+
+    key = ("W", parent, tuple(dt))
+    if key not in _G:
+        G = _world()
+        if "iers" not in _G:
+            _G["iers"] = er.IersTable(POLE)
+            _G["leap"] = er.LeapSeconds(os.path.join(POLE, "tai-utc.dat"))
+        mjd = (datetime.date(dt[0], dt[1], dt[2]) - datetime.date(1858, 11, 17)).days
+        sod = dt[3] * 3600 + dt[4] * 60 + dt[5]
+        eop = er.Eop(tai_utc=_G["leap"].tai_utc(mjd), **_G["iers"].get(mjd))
+        ref = er.EarthRotation(mjd, sod, eop, G["nut"])
+        _G[key] = {"PEF": ref.ITRF_to_PEF, "TIRF": ref.ITRF_to_TIRF}[parent]()
+    return _G[key]
+
+
+def make_station(name, lat_d, lon_d, alt, mask=None, argtype="tuple-float", parent=None):
     from mc import world
     from beyond.frames import create_station
 
@@ -144,7 +169,12 @@ def make_station(name, lat_d, lon_d, alt, mask=None, argtype="tuple-float"):
     arg = coords_arg(argtype, lat_d, lon_d, alt)
     keep = (type(arg), [type(v) for v in arg], [float(v) for v in arg])
     try:
-        sta = create_station(name, arg, mask=mask)
+        if parent:
+            from beyond.frames.frames import get_frame
+
+            sta = create_station(name, arg, parent_frame=get_frame(parent), mask=mask)
+        else:
+            sta = create_station(name, arg, mask=mask)
     except Exception as e:  # the property requires a station for every coordinate triple
         raise CreateFailed(f"create_station({arg!r}) raised {type(e).__name__}: {e}") from e
     if (type(arg), [type(v) for v in arg], [float(v) for v in arg]) != keep:
@@ -175,7 +205,7 @@ N_PATHS = 7
 VARIANT_EVERY = 8  # every 8th target of a (site, date) is also measured from 7 other (frame, form) representations
 
 
-def check_target(sta, site, dt, date, tg, t, with_measures=True, pidx=0, argtype=None, variants=False):
+def check_target(sta, site, dt, date, tg, t, with_measures=True, pidx=0, argtype=None, variants=False, parent=None):
     """site = (lat_d, lon_d, alt); tg = (az, el, range, (vE, vN, vU))."""
     from mc.ref import geodesy as gd
     from beyond.orbits import StateVector
@@ -193,6 +223,13 @@ def check_target(sta, site, dt, date, tg, t, with_measures=True, pidx=0, argtype
     r_ecef = s_ecef + gd.enu_to_ecef(enu, lat, lon)
     v_ecef = gd.enu_to_ecef(np.array(vel, dtype=float), lat, lon)
     az_dot, el_dot, rr = gd.az_el_range_rates(enu, vel)
+    if parent:
+        # site and ENU axes are those of the PARENT frame; the target is handed over in ITRF through the reference
+        # polar-motion matrix (ITRF, PEF and TIRF do not rotate w.r.t. each other: velocities transform alike)
+        Wt = parent_matrix(parent, dt).T
+        r_ecef, v_ecef = Wt @ r_ecef, Wt @ v_ecef
+        case["parent"] = parent
+        case["config"] = {"eop": "real"}
     sv = StateVector(np.concatenate([r_ecef, v_ecef]), date, "cartesian", "ITRF")
     sig = "hemisphere-" + ("N" if site[0] >= 0 else "S") + ("E" if math.sin(lon) >= 0 else "W")
     try:
@@ -493,6 +530,57 @@ def check_mask_history(i, j, t, site=(43.6, 1.44, 172.0)):
     world.restore(G["snap"])
 
 
+PARENTS = ["PEF", "TIRF"]
+
+
+def check_parent_site(site, parent, t, tier="quick"):
+    """A station whose coordinates are given in PEF / TIRF (create_station(parent_frame=...)), real polar motion:
+    the station sits at the geodetic point OF ITS PARENT frame, at rest there and in ITRF, and targets given in ITRF
+    are seen at the azimuth / elevation / range of the parent-frame ENU model."""
+    from mc.ref import geodesy as gd
+    from beyond.orbits import StateVector
+
+    G = _world()
+    site = tuple(site)
+    lat, lon, alt = math.radians(site[0]), math.radians(site[1]), site[2]
+    try:
+        sta = make_station("Sta", *site, parent=parent)
+    except CreateFailed as e:
+        t.fail("station/create-raises", "a station can be created on any Earth-fixed parent frame", dict(kind="parent-origin", site=list(site), parent=parent, config={"eop": "real"}), "a station", str(e))
+        return
+    tg = targets(tier)
+    sub = tg[::7][:28]
+    s_par = gd.geodetic_to_ecef(lat, lon, alt, G["a"], G["f"])
+    R = float(np.linalg.norm(s_par))
+    for dt in DATES:
+        date = mk_date(dt)
+        case = dict(kind="parent-origin", site=list(site), date=list(dt), parent=parent, config={"eop": "real"})
+        o = StateVector(np.zeros(6), date, "cartesian", sta)
+        try:
+            in_par = np.array(o.copy(frame=parent), dtype=float)
+            in_itrf = np.array(o.copy(frame="ITRF"), dtype=float)
+            via = np.array(o.copy(frame=parent).copy(frame="ITRF"), dtype=float)
+        except Exception as e:
+            t.fail("station/origin-raises", "the station origin converts to Earth-fixed frames", case, "state", repr(e))
+            continue
+        t.trans(4)
+        exp_itrf = parent_matrix(parent, dt).T @ s_par
+        if not t.margin("parent-frame station: position in its parent frame [m / (8 eps R)]", float(np.max(np.abs(in_par[:3] - s_par))), 8 * EPS * R, case):
+            t.fail("station/parent-position", "the station sits at the given geodetic point of its parent frame", case, s_par.tolist(), in_par[:3].tolist())
+        if not t.margin("parent-frame station: position in ITRF vs reference polar motion [m / (32 eps R)]", float(np.max(np.abs(in_itrf[:3] - exp_itrf))), 32 * EPS * R, case):
+            t.fail("station/parent-position-itrf", "station -> ITRF is the polar-motion image of the parent-frame point", case, exp_itrf.tolist(), in_itrf[:3].tolist(),
+                   f"{float(np.max(np.abs(in_itrf[:3] - exp_itrf))):.3e} m")
+        if float(np.max(np.abs(in_itrf[:3] - via[:3]))) > 32 * EPS * R:
+            t.fail("station/parent-path", "station -> ITRF equals station -> parent -> ITRF", case, via[:3].tolist(), in_itrf[:3].tolist())
+        if np.any(in_par[3:] != 0.0) or np.any(in_itrf[3:] != 0.0):
+            t.fail("station/not-at-rest", "the station is at rest in the Earth-fixed frames", case, [0, 0, 0], [in_par[3:].tolist(), in_itrf[3:].tolist()])
+        t.ev(("PO", site, tuple(dt), parent))
+        for i, x in enumerate(sub):
+            check_target(sta, site, dt, date, x, t, pidx=i, parent=parent)
+        t.states_add(1 + len(sub))
+        t.outcome(("parent", parent))
+
+
 REBIND_SITES = [(43.6, 1.44, 172.0), (-33.45, -70.66, 520.0), (10.0, 120.0, 0.0), (-60.0, -179.9, 9000.0)]
 
 
@@ -556,9 +644,11 @@ def check_case(case, t):
         return check_mask_history(case["i"], case["j"], t, tuple(case["site"]))
     if case.get("rebind"):
         return check_rebind(case["rebind"], case["restore"], t)
+    if case["kind"] == "parent-origin":
+        return check_parent_site(case["site"], case["parent"], t)
     site = tuple(case["site"])
     try:
-        sta = make_station("Sta", *site, argtype=case.get("argtype") or "tuple-float")
+        sta = make_station("Sta", *site, argtype=case.get("argtype") or "tuple-float", parent=case.get("parent"))
     except CreateFailed as e:
         t.fail("station/create-raises", "a station can be created from any latitude, longitude, altitude triple", case, "a station", str(e))
         return
@@ -567,7 +657,7 @@ def check_case(case, t):
         return check_origin(sta, site, case["date"], date, t, argtype=case.get("argtype"))
     az, el, rng, vel = case["target"]
     check_target(sta, site, case["date"], date, (az, el, rng, tuple(vel)), t, pidx=case.get("pidx", 0), argtype=case.get("argtype"),
-                 variants=case.get("variants", False))
+                 variants=case.get("variants", False), parent=case.get("parent"))
 
 
 def run_unit(p, t):
@@ -580,6 +670,11 @@ def run_unit(p, t):
                     n += 1
         t.states_add(n)
         t.sample(dict(kind="mask", tables=len(p["masks"]), queries=n))
+        return
+    if p["part"] == "parent":
+        for site in p["sites"]:
+            for parent in PARENTS:
+                check_parent_site(site, parent, t, p["tier"])
         return
     if p["part"] == "rebind":
         for seq in p["seqs"]:
@@ -647,6 +742,10 @@ def units(tier, seed):
     pairs = [[i, j] for i in range(len(MASKS)) for j in range(len(MASKS)) if i != j]
     u.append((cfg, dict(part="mask-history", tier=tier, pairs=pairs[:15])))
     u.append((cfg, dict(part="mask-history", tier=tier, pairs=pairs[15:])))
+    real = {"eop": "real"}
+    psites = [list(x) for x in REBIND_SITES]
+    u.append((real, dict(part="parent", tier="quick", sites=psites[:2])))
+    u.append((real, dict(part="parent", tier="quick", sites=psites[2:])))
     seqs = rebind_sequences()
     for k in range(0, len(seqs), 6):
         u.append((cfg, dict(part="rebind", tier="quick", seqs=seqs[k : k + 6])))
